@@ -1,47 +1,14 @@
-"""U-pathcomp (C40): path components git refuses are refused."""
+"""U-pathcomp (C40): path components git refuses are refused (harness list generated into harnesses.json)."""
+import json, os
 FUNCS = ["gix_validate::path::component", "gix_validate::path::is_dot_hfs", "gix_validate::path::is_dot_git_ntfs", "gix_validate::path::is_dot_ntfs",
          "gix_validate::path::is_done_ntfs", "gix_validate::path::is_done_windows", "gix_validate::path::is_win_device",
          "gix_validate::path::check_win_devices_and_illegal_characters"]
-def H(name, bound, tier="quick", timeout=900, mem_gb=12):
-    return {"name": name, "props": ["C40"], "tier": tier, "kind": "bounded", "bound": bound + " (mode None unless stated; .gitmodules families: symlink)", "timeout": timeout, "mem_gb": mem_gb}
+_H = json.load(open(os.path.join(os.path.dirname(os.path.abspath(__file__)), "harnesses.json")))
 KANI = [{
     "mode": "external", "functions": FUNCS,
-    "harnesses": [
-        H("dotgit_case", "(1) .git, all 8 case masks, all option combinations, both modes"),
-        H("dotgit_case_symlink", "(1) .git, all case masks and options, mode = symlink", tier="thorough"),
-        H("ntfs_dotgit_t1_symlink", "(2) .git + 1 of {' ','.'}, mode = symlink", tier="thorough"),
-        H("ntfs_dotgit_t0", "(2) .git any case, no suffix, protect_ntfs", tier="thorough"),
-        H("ntfs_dotgit_t1", "(2) .git + 1 byte from {' ','.'}"),
-        H("ntfs_dotgit_t2", "(2) .git + 2 bytes from {' ','.'}", tier="thorough"),
-        H("ntfs_dotgit_t3", "(2) .git + 3 bytes from {' ','.'}", tier="thorough"),
-        H("ntfs_dotgit_t5", "(2) .git + 5 bytes from {' ','.'}", tier="thorough"),
-        H("ntfs_dotgit_t0_stream1", "(2) .git + ':' + 1 arbitrary byte"),
-        H("ntfs_dotgit_t1_stream2", "(2) .git + 1 of {' ','.'} + ':' + 2 arbitrary bytes", tier="thorough"),
-        H("ntfs_short_t0", "(2) git~1 any case", tier="thorough"),
-        H("ntfs_short_t2", "(2) git~1 + 2 bytes from {' ','.'}", tier="thorough"),
-        H("ntfs_short_t1_stream1", "(2) git~1 + 1 of {' ','.'} + ':' + 1 arbitrary byte"),
-        H("hfs_dotgit_k0", "(3) .git any case under protect_hfs", tier="thorough"),
-        H("hfs_dotgit_k1", "(3) .git with 1 of the 16 ignorable code points at any of 5 positions"),
-        H("hfs_dotgit_k2", "(3) .git with 2 ignorable code points at any positions", tier="thorough"),
-        H("hfs_dotgit_k3", "(3) .git with 3 ignorable code points", tier="thorough", timeout=2400),
-        H("hfs_modules_k0", "(4) symlink .gitmodules any case under protect_hfs"),
-        H("hfs_modules_k1", "(4) symlink .gitmodules with 1 ignorable code point at any of 12 positions", tier="thorough"),
-        H("hfs_modules_k2", "(4) symlink .gitmodules with 2 ignorable code points", tier="thorough", timeout=2400),
-        H("ntfs_modules_t0", "(4) symlink .gitmodules any case under protect_ntfs", tier="thorough"),
-        H("ntfs_modules_t2", "(4) symlink .gitmodules + 2 bytes from {' ','.'}", tier="thorough"),
-        H("ntfs_modules_t1_stream1", "(4) symlink .gitmodules + 1 of {' ','.'} + ':' + 1 arbitrary byte"),
-        H("ntfs_modules_short_t0", "(4) symlink gitmod~1..4 any case"),
-        H("ntfs_modules_short_t2", "(4) symlink gitmod~1..4 + 2 bytes from {' ','.'}", tier="thorough"),
-        H("ntfs_modules_hash_t0", "(4) symlink hashed 8.3 names: prefix of gi7eba (0..6 bytes, any case) ~ digits, 8 bytes"),
-        H("ntfs_modules_hash_t2", "(4) hashed 8.3 names + 2 bytes from {' ','.'}", tier="thorough"),
-        H("win_device_end", "(5) CON PRN AUX NUL COM1-9 LPT0-9 CONIN$ CONOUT$ any case"),
-        H("win_device_sp2_end", "(5) device + 2 spaces", tier="thorough"),
-        H("win_device_dot2", "(5) device + '.' + 2 arbitrary bytes", tier="thorough"),
-        H("win_device_sp1_colon2", "(5) device + space + ':' + 2 arbitrary bytes"),
-        H("separators_3", "(6) 3-byte components containing '/' (or '\\\\' under protect_windows) at any position; the empty component"),
-    ],
+    "harnesses": [{"name": h["name"], "props": ["C40"], "tier": h["tier"], "kind": "bounded", "bound": h["bound"], "timeout": 1500, "mem_gb": 12} for h in _H],
 }]
 ASSUMPTIONS = [
-    ("C40", "the property enumerates refused classes; each class is a generator with symbolic parameters and is complete only up to the stated suffix bound. The converse (nothing else is refused) is not part of the property"),
-    ("C40", "call-site coverage (that gix-index / checkout / tree editor route every component through component()) is a call-site audit, not a contract: undecided"),
+    ("C40", "the property enumerates refused classes; each class is a generator with symbolic parameters (case masks, fillers, insertion positions) and is complete only up to the stated suffix bound; option sets and the entry mode are fixed per harness (symbolic options/modes multiply CBMC's paths beyond the budget), the quick tier runs the defining option set of each class, the thorough tier the other combinations"),
+    ("C40", "the converse (nothing else is refused) is not part of the property; call-site coverage (gix-index / checkout / tree editor route every component through component()) is undecided"),
 ]
